@@ -228,7 +228,10 @@ class PolicyGen:
         arg = rng.randint(0, 5)
         op = rng.choice(OPS)
         if bad == "argidx":
-            arg = rng.choice([6, 6, 6, 7, 8, 100, M32, 1 << 31])
+            # just above the range, far above it, and values that equal a valid index modulo 2^29 / 2^30 / 2^31 (the
+            # load offset 16 + 8*index is computed in 32 bits)
+            arg = rng.choice([6, 6, 6, 7, 8, 100, M32, 1 << 31, (1 << 29) + rng.randint(0, 5), (1 << 30) + rng.randint(0, 5),
+                              (3 << 29) + rng.randint(0, 5), (1 << 31) + rng.randint(0, 5), (7 << 29) + rng.randint(0, 5), M32 - 1])
         if bad == "op":
             op = "Other%d" % rng.randint(0, 5)
         return (arg, op, self.operand())
@@ -285,6 +288,11 @@ class PolicyGen:
                 else:
                     nn, nw = rng.randint(0, 6), rng.randint(0, 5)
                 pool = rng.sample(names_all, min(len(names_all), nn + nw))
+                if pool and rng.random() < 0.3:
+                    # the syscall with the smallest number of the table (0 on most: the zero value of a failed lookup)
+                    zero = min(ai["table"])[1]
+                    if zero not in pool:
+                        pool[rng.randrange(len(pool))] = zero
                 names = pool[:nn]
                 cpool = pool[nn:] or [rng.choice(names_all)]
                 nwc = []
@@ -389,8 +397,17 @@ class PolicyGen:
         g = rng.choice(groups)
         bogus = rng.choice(["", "nosuchcall", "READ", "read ", "exit\x00", "open\n", "\xff\xfe", "%d%s", "x32_read", "getpid2"])
         if defect == "unknown_name":
+            if rng.random() < 0.3:
+                zero = min(self.arches[pol["arch"]]["table"])[1]
+                if zero not in g["names"] and all(w["name"] != zero for w in g["nwc"]):
+                    g["names"].insert(rng.randint(0, len(g["names"])), zero)
             g["names"].insert(rng.randint(0, len(g["names"])), bogus)
         elif defect == "unknown_cond_name":
+            if rng.random() < 0.4:
+                # next to a conditional entry for the syscall numbered 0 (what a failed lookup yields)
+                zero = min(self.arches[pol["arch"]]["table"])[1]
+                if zero not in g["names"] and all(w["name"] != zero for w in g["nwc"]):
+                    g["nwc"].insert(rng.randint(0, len(g["nwc"])), dict(name=zero, conds=[self.cond()]))
             g["nwc"].insert(rng.randint(0, len(g["nwc"])), dict(name=bogus, conds=[self.cond()]))
         elif defect == "dup_name":
             if not g["names"]:
